@@ -626,6 +626,67 @@ def observe(w):
         return {"UNOBSERVABLE": f"{type(e).__name__}: {e}"[:200]}
 
 
+# an ExtendedPropertyDictionary as nitypes 1.0.0 pickled it (slots state without the callback list; the library's own compatibility test
+# loads exactly this layout), and a 1.0.1 one (constructor round trip)
+LEGACY_EPD = {
+    "1.0.0": b"\x80\x04\x95\x88\x00\x00\x00\x00\x00\x00\x00\x8c\x10nitypes.waveform\x94\x8c\x1aExtendedPropertyDictionary\x94\x93\x94)\x81\x94N}\x94\x8c\x0b_properties\x94}\x94(\x8c\x0eNI_ChannelName\x94\x8c\x08Dev1/ai0\x94\x8c\x12NI_UnitDescription\x94\x8c\x05Volts\x94us\x86\x94b.",
+    "1.0.1": b"\x80\x04\x95t\x00\x00\x00\x00\x00\x00\x00\x8c\x10nitypes.waveform\x94\x8c\x1aExtendedPropertyDictionary\x94\x93\x94}\x94(\x8c\x0eNI_ChannelName\x94\x8c\x08Dev1/ai0\x94\x8c\x12NI_UnitDescription\x94\x8c\x05Volts\x94u\x85\x94R\x94.",
+}
+
+
+def legacy_dictionary_cases(ctx, judge):
+    """Objects whose extended properties come from a pickle written by an earlier release (standalone, handed to a constructor with and
+    without copying): every write through the dictionary, the attributes and append either succeeds or changes nothing.
+    judge(info, obj, before, outcome, after) is called after every call."""
+    import pickle
+    import numpy as np
+    from nitypes.waveform import AnalogWaveform, ComplexWaveform, DigitalWaveform, Spectrum
+    from nitypes.scalar import Scalar
+    from nitypes.vector import Vector
+    from props.common import outcome
+    n = 0
+
+    def epd_obs(d):
+        return {"props": list(d.items())}
+    makers = [("AnalogWaveform", lambda p, c: AnalogWaveform.from_array_1d(np.array([1.0, 2.0]), np.float64, extended_properties=p, copy_extended_properties=c)),
+              ("ComplexWaveform", lambda p, c: ComplexWaveform.from_array_1d(np.array([1 + 2j]), np.complex128, extended_properties=p, copy_extended_properties=c)),
+              ("Spectrum", lambda p, c: Spectrum.from_array_1d(np.array([1.0, 2.0]), np.float64, extended_properties=p, copy_extended_properties=c)),
+              ("DigitalWaveform", lambda p, c: DigitalWaveform.from_lines(np.array([[0, 1]], np.uint8), extended_properties=p, copy_extended_properties=c))]
+    for release, blob in LEGACY_EPD.items():
+        # the dictionary on its own
+        for label, call in (("d['k'] = 'v'", lambda d: d.__setitem__("k", "v")), ("d['NI_UnitDescription'] = 'A'", lambda d: d.__setitem__(UNITS_KEY, "A")),
+                            ("del d['NI_ChannelName']", lambda d: d.__delitem__("NI_ChannelName")), ("d.update(k='v')", lambda d: d.update(k="v")),
+                            ("d.pop('NI_ChannelName')", lambda d: d.pop("NI_ChannelName")), ("d.clear()", lambda d: d.clear()), ("d.setdefault('k', 'v')", lambda d: d.setdefault("k", "v"))):
+            d = pickle.loads(blob)
+            before = epd_obs(d)
+            o = outcome(call, d)
+            n += 1
+            ctx.case(("legacy-dictionary", release, label))
+            judge(dict(release=release, object="ExtendedPropertyDictionary", call=label), d, before, o, epd_obs(d))
+        for cname, mk in makers:
+            for copy_flag in (True, False):
+                calls = [("units = 'A'", lambda w: setattr(w, "units", "A")), ("channel_name = 'c'", lambda w: setattr(w, "channel_name", "c")),
+                         ("extended_properties['k'] = 'v'", lambda w: w.extended_properties.__setitem__("k", "v")),
+                         ("del extended_properties['NI_ChannelName']", lambda w: w.extended_properties.__delitem__("NI_ChannelName")),
+                         ("append(object with other properties)", lambda w: w.append(mk({"other": "1"}, True)))]
+                for label, call in calls:
+                    if label.startswith("units") and cname == "DigitalWaveform":
+                        continue
+                    r = outcome(mk, pickle.loads(blob), copy_flag)
+                    if r[0] != "ok":
+                        continue
+                    w = r[1]
+                    before = observe(w)
+                    o = outcome(call, w)
+                    n += 1
+                    ctx.case(("legacy-dictionary", release, cname, copy_flag, label))
+                    judge(dict(release=release, object=cname, copy_extended_properties=copy_flag, call=label), w, before, o, observe(w))
+    return n
+
+
+UNITS_KEY = "NI_UnitDescription"
+
+
 def borrowed_cases(ctx, judge, quick_subset=False):
     """Run append / load_data / capacity calls on waveforms that borrow memory they cannot resize and/or cannot write
     (views, np.frombuffer(bytes), arrays flagged read-only), full and with spare capacity, in each timing mode.
